@@ -1,0 +1,66 @@
+//go:build verif
+
+package goja
+
+// A wrapped []interface{} is a live, in-bounds view (C13, narrow claim): whatever index, length or
+// value script supplies, no operation of the wrapper reads or writes outside the slice or makes the
+// Go runtime panic; growing reallocates or clears the exposed tail, shrinking clears what is cut off.
+
+// The wrapper keeps pointing at the Go variable it was created for.
+//@ typeinv *objectGoSlice specGoSliceWF
+
+//@ func (*objectGoSlice)._getIdx bounds
+//@   props C13
+//@   requires o != nil && 0 <= idx && idx < len(*o.data)
+
+//@ func (*objectGoSlice).getIdx bounds
+//@   props C13
+//@   requires o != nil
+
+//@ func (*objectGoSlice).getOwnPropIdx bounds
+//@   props C13
+//@   requires o != nil
+
+//@ func (*objectGoSlice).getOwnPropStr bounds
+//@   props C13
+//@   requires o != nil
+
+//@ func (*objectGoSlice).getStr bounds
+//@   props C13
+//@   requires o != nil
+
+//@ func (*objectGoSlice).grow bounds
+//@   props C13
+//@   requires o != nil && size >= len(*o.data)
+//@   loop 1 vars rangeindex int, tail []interface{}
+//@   loop 1 invariant samearray(tail, *o.data) && sliceoff(tail, *o.data) == len(*o.data) && len(tail) == size-len(*o.data) && rangeindex >= -1 && rangeindex < len(tail) && len(*o.data) == old(len(*o.data)) && samearray(*o.data, old(*o.data)) && sliceoff(*o.data, old(*o.data)) == 0 [tail-is-the-exposed-part]
+//@   loop 1 invariant forall k int :: 0 <= k && k < len(*o.data) ==> same((*o.data)[k], old((*o.data)[k])) [elements-kept]
+//@   loop 1 invariant forall k int :: 0 <= k && k <= rangeindex ==> tail[k] == nil [cleared-so-far]
+//@   ensures len(*o.data) == size [grown-to-size]
+//@   ensures forall k int :: 0 <= k && k < old(len(*o.data)) ==> same((*o.data)[k], old((*o.data)[k])) [elements-kept]
+//@   ensures forall k int :: old(len(*o.data)) <= k && k < size ==> (*o.data)[k] == nil [new-slots-are-nil]
+
+//@ func (*objectGoSlice).shrink bounds
+//@   props C13
+//@   requires o != nil && 0 <= size && size <= len(*o.data)
+//@   loop 1 vars rangeindex int, tail []interface{}
+//@   loop 1 invariant samearray(tail, *o.data) && sliceoff(tail, *o.data) == size && len(*o.data) == old(len(*o.data)) && samearray(*o.data, old(*o.data)) && sliceoff(*o.data, old(*o.data)) == 0 [tail-is-the-cut-off-part]
+//@   loop 1 invariant forall k int :: 0 <= k && k < size ==> same((*o.data)[k], old((*o.data)[k])) [elements-kept]
+//@   ensures len(*o.data) == size [shrunk-to-size]
+//@   ensures forall k int :: 0 <= k && k < size ==> same((*o.data)[k], old((*o.data)[k])) [elements-kept]
+
+//@ func (*objectGoSlice).putIdx bounds
+//@   props C13
+//@   requires o != nil && idx >= 0
+
+//@ func (*objectGoSlice).putLength bounds
+//@   props C13
+//@   requires o != nil
+
+//@ func (*objectGoSlice)._deleteIdx bounds
+//@   props C13
+//@   requires o != nil && idx >= 0
+
+//@ func (*objectGoSlice).swap bounds
+//@   props C13
+//@   requires o != nil && 0 <= i && i < len(*o.data) && 0 <= j && j < len(*o.data)
